@@ -13,7 +13,7 @@ NoLogs == {}
 Logs1 == {"log"}
 AllModes == {"append", "replace", "reset"}
 AllClasses == {"short", "exact100", "long150", "unicode", "bytes"}
-SizesQ == {1, 10, 11}
+SizesQ == {1, 9, 10, 11}
 SizesT == {1, 9, 10, 11, 21}
 SizesD == {1, 2, 3, 4, 7}
 NoSizes == {}
